@@ -3,11 +3,17 @@ package sim
 import (
 	"fmt"
 	"os"
+	"runtime"
+	"runtime/debug"
 	"testing"
 )
 
 // TestSim is the single entry point of the simulator binary; VERIF_MODE selects what it does.
 func TestSim(t *testing.T) {
+	// one P per shard process (the driver starts one process per core) and no background GC: per-P caches such as
+	// sync.Pool then behave reproducibly should a change under test introduce them; Execute collects explicitly.
+	runtime.GOMAXPROCS(1)
+	debug.SetGCPercent(-1)
 	switch os.Getenv("VERIF_MODE") {
 	case "shard":
 		runShard(t)
